@@ -1,22 +1,27 @@
-"""N11 - private helper functions that are NOT in the reference snapshot are inlined into their callers before any rule runs.
+"""N11 - functions, methods and properties that are NOT in the reference snapshot are inlined into their callers before any rule runs.
 
-"Extract method" is the commonest structural refactor: a few statements move into a new private helper.  The rules are anchored on the functions of the
-reference tree, so a helper that did not exist there is a refactoring artefact; splicing its body back restores the shape the rules know.  Nothing is lost for
-detection: a real change inside such a helper is seen, after inlining, in the caller.  Functions that exist in the reference (sa/alpha_reference.json) are never
-inlined - they are anchors in their own right.
+"Extract method" is the commonest structural refactor: a few statements move into a new helper (private or public, a module function, a method, a static method, a
+plain property).  The rules are anchored on the functions of the reference tree, so a helper that did not exist there is a refactoring artefact; splicing its body back
+restores the shape the rules know.  Nothing is lost for detection: a real change inside such a helper is seen, after inlining, in the caller.  Functions that exist in
+the reference (sa/alpha_reference.json) are never inlined - they are anchors in their own right.  A helper behind a decorator that changes what a call computes
+(lru_cache, cached_property, any wrapper not listed as transparent) is NOT interchangeable with its body and is left alone.
 
-Handled: helpers whose only `return` is their last statement (or that return nothing), called as a whole statement (`return h(..)`, `x = h(..)`, `h(..)`), and
-helpers that consist of a single `return <expr>`, called anywhere in an expression.  Arguments are bound by name; non-trivial arguments are first bound to fresh
-temporaries (evaluation order and single evaluation preserved); the helper's locals are renamed apart.  Anything else is left as written.
+Handled:
+  * a helper that is one `return <expr>` ('expr'): replaced by the expression wherever it is called (read, for a property) with plain arguments;
+  * a helper whose only `return` is its last statement, or that returns nothing ('tail' / 'none'): spliced in where the call is a whole statement
+    (`return h(..)`, `x = h(..)`, `h(..)`), or hoisted into a temporary right before the simple statement that contains the call;
+  * a helper with several returns, all outside loops / try / with ('multi'): `return h(..)` splices the body as it is; `x = h(..)` splices it with every
+    `return v` turned into `x = v` and what followed an early return moved into the other arm.
+Arguments are bound by name; non-trivial arguments are first bound to fresh temporaries (single evaluation); the helper's locals are renamed apart.
+Hoisting changes WHEN a helper is evaluated relative to its neighbours in the same statement - immaterial for the analyses that follow, which do not execute anything.
 """
 from __future__ import annotations
 
 import ast
 import copy
-from typing import Dict, List, Optional
+from typing import Dict, List, Optional, Tuple
 
 from .canon import _own_locals
-
 
 TRANSPARENT_DECORATORS = {"numba_util.jit", "jit", "numba.jit", "staticmethod", "classmethod", "property", "profile_func", "profile.profile_func"}
 
@@ -26,10 +31,8 @@ def transparent(g) -> bool:
     return all(d in TRANSPARENT_DECORATORS for d in g.decorators)
 
 
-def _is_new_private(g, ref) -> bool:
-    if not transparent(g):
-        return False
-    if not g.name.startswith("_") or (g.name.startswith("__") and g.name.endswith("__")) or g.parent is not None:
+def _is_new(g, ref) -> bool:
+    if not transparent(g) or (g.name.startswith("__") and g.name.endswith("__")) or g.parent is not None or g.is_classmethod:
         return False
     r = ref.get(g.module.relpath)
     if r is None:
@@ -37,19 +40,94 @@ def _is_new_private(g, ref) -> bool:
     return g.qualname not in r
 
 
+_is_new_private = _is_new   # (older name)
+
+
+def _body(g) -> List[ast.stmt]:
+    return [s for s in g.node.body if not (isinstance(s, ast.Expr) and isinstance(s.value, ast.Constant) and isinstance(s.value.value, str))]
+
+
 def _single_exit(g) -> Optional[str]:
-    """'expr' (body is one return), 'tail' (one return, last statement), 'none' (no return), or None (not inlinable)"""
-    body = [s for s in g.node.body if not (isinstance(s, ast.Expr) and isinstance(s.value, ast.Constant) and isinstance(s.value.value, str))]
+    """'expr' (body is one return), 'tail' (one return, last statement), 'none' (no return), 'multi' (several structured returns), or None (not inlinable)"""
+    body = _body(g)
     rets = [n for n in ast.walk(g.node) if isinstance(n, ast.Return)]
     bad = [n for n in ast.walk(g.node) if isinstance(n, (ast.Yield, ast.YieldFrom, ast.Await, ast.Global, ast.Nonlocal))]
     nested = [n for n in ast.walk(g.node) if isinstance(n, (ast.FunctionDef, ast.AsyncFunctionDef, ast.Lambda)) and n is not g.node]
-    if bad or nested or g.vararg or g.kwarg:
+    if bad or nested or g.vararg or g.kwarg or not body:
         return None
     if not rets:
         return "none"
-    if len(rets) == 1 and body and body[-1] is rets[0] and rets[0].value is not None:
+    if len(rets) == 1 and body[-1] is rets[0] and rets[0].value is not None:
         return "expr" if len(body) == 1 else "tail"
-    return None
+    # several returns: each must sit in if / else structure only
+    ok = True
+
+    def walk(stmts, inside_other):
+        nonlocal ok
+        for st in stmts:
+            if isinstance(st, ast.Return):
+                if inside_other or st.value is None:
+                    ok = False
+            elif isinstance(st, ast.If):
+                walk(st.body, inside_other)
+                walk(st.orelse, inside_other)
+            else:
+                for fld in ("body", "orelse", "finalbody"):
+                    b = getattr(st, fld, None)
+                    if isinstance(b, list) and b and isinstance(b[0], ast.stmt):
+                        walk(b, True)
+                if isinstance(st, ast.Try):
+                    for h in st.handlers:
+                        walk(h.body, True)
+    walk(body, False)
+    return "multi" if ok and _all_paths_return(body) else None
+
+
+def _all_paths_return(stmts) -> bool:
+    if not stmts:
+        return False
+    last = stmts[-1]
+    if isinstance(last, (ast.Return, ast.Raise)):
+        return True
+    if isinstance(last, ast.If):
+        return _all_paths_return(last.body) and _all_paths_return(last.orelse)
+    return False
+
+
+def _returns_to_assign(stmts: List[ast.stmt], make) -> Optional[List[ast.stmt]]:
+    """the statements with every `return v` replaced by make(v) (a list of statements) and whatever followed an `if` with a returning arm moved into the arm(s) that fall through"""
+    out: List[ast.stmt] = []
+    for i, st in enumerate(stmts):
+        if isinstance(st, ast.Return):
+            out.extend(make(st.value, st))
+            return out
+        if isinstance(st, ast.Raise):
+            out.append(st)
+            return out
+        if isinstance(st, ast.If) and any(isinstance(n, ast.Return) for n in ast.walk(st)):
+            rest = stmts[i + 1:]
+            tb, to = _terminates_ret(st.body), _terminates_ret(st.orelse)
+            b = _returns_to_assign(st.body + ([] if tb else copy.deepcopy(rest)), make)
+            o = _returns_to_assign(st.orelse + ([] if to else copy.deepcopy(rest)), make)
+            if b is None or o is None:
+                return None
+            out.append(ast.copy_location(ast.If(test=st.test, body=b or [ast.Pass()], orelse=o), st))
+            return out
+        if any(isinstance(n, ast.Return) for n in ast.walk(st)):
+            return None
+        out.append(st)
+    return out
+
+
+def _terminates_ret(stmts) -> bool:
+    if not stmts:
+        return False
+    last = stmts[-1]
+    if isinstance(last, (ast.Return, ast.Raise)):
+        return True
+    if isinstance(last, ast.If):
+        return _terminates_ret(last.body) and _terminates_ret(last.orelse)
+    return False
 
 
 class _Subst(ast.NodeTransformer):
@@ -69,7 +147,7 @@ class _Subst(ast.NodeTransformer):
 def inline_new_helpers(project, ref) -> int:
     helpers = {}
     for g in project.all_functions():
-        if _is_new_private(g, ref):
+        if _is_new(g, ref):
             kind = _single_exit(g)
             if kind is not None:
                 helpers[g.key] = (g, kind)
@@ -79,50 +157,59 @@ def inline_new_helpers(project, ref) -> int:
     counter = [0]
     done = 0
 
-    def binding(c: ast.Call, g, caller):
-        if any(isinstance(a, ast.Starred) for a in c.args) or any(k.arg is None for k in c.keywords):
-            return None
-        b, complete = project.bind(c, g)
+    def binding(c: Optional[ast.Call], g, recv: Optional[ast.expr] = None):
+        """parameter -> argument expression (c None: a property read on receiver recv)"""
         m: Dict[str, ast.expr] = {}
-        for prm in g.call_params + g.kwonly:
-            if prm in b:
-                m[prm] = b[prm]
-            elif prm in g.defaults and g.defaults[prm] is not None:
-                m[prm] = g.defaults[prm]
-            else:
+        if c is not None:
+            if any(isinstance(a, ast.Starred) for a in c.args) or any(k.arg is None for k in c.keywords):
                 return None
-        if g.cls is not None and not g.is_staticmethod and g.params:
-            if not isinstance(c.func, ast.Attribute):
-                return None
-            recv = c.func.value
-            if g.is_classmethod and not (isinstance(recv, ast.Name)):
+            b, complete = project.bind(c, g)
+            for prm in g.call_params + g.kwonly:
+                if prm in b:
+                    m[prm] = b[prm]
+                elif prm in g.defaults and g.defaults[prm] is not None:
+                    m[prm] = g.defaults[prm]
+                else:
+                    return None
+            if g.cls is not None and not g.is_staticmethod and g.params:
+                if not isinstance(c.func, ast.Attribute):
+                    return None
+                m[g.params[0]] = c.func.value
+        else:
+            if not g.params or len(g.params) != 1:
                 return None
             m[g.params[0]] = recv
         return m
 
-    def instantiate(g, kind, m, lineno):
-        """(prelude statements, value expression or None)"""
+    def instantiate(g, kind, m, lineno, make=None):
+        """(statements, value expression or None).  make: for 'multi', how a `return v` is rewritten (None: keep the returns)"""
         counter[0] += 1
         tag = f"_i{counter[0]}_"
         pre: List[ast.stmt] = []
         sub: Dict[str, ast.expr] = {}
         stored_params = {n.id for n in ast.walk(g.node) if isinstance(n, ast.Name) and isinstance(n.ctx, (ast.Store, ast.Del))}
         for prm, arg in m.items():
-            if isinstance(arg, (ast.Name, ast.Constant)) and prm not in stored_params or (isinstance(arg, ast.Attribute) and prm not in stored_params and prm == (g.params[0] if g.params else None)):
+            simple = isinstance(arg, (ast.Name, ast.Constant)) or (isinstance(arg, ast.Attribute) and _pure_chain(arg))
+            if simple and prm not in stored_params:
                 sub[prm] = arg
             else:
                 tmp = tag + prm
                 pre.append(ast.Assign(targets=[ast.Name(id=tmp, ctx=ast.Store())], value=copy.deepcopy(arg), lineno=lineno))
                 sub[prm] = ast.Name(id=tmp, ctx=ast.Load())
         locs, _ = _own_locals(g.node)
+        comp_only = _comprehension_only_names(g.node)
         for v in locs:
-            sub[v] = ast.Name(id=tag + v, ctx=ast.Load())
-        body = [copy.deepcopy(s) for s in g.node.body if not (isinstance(s, ast.Expr) and isinstance(s.value, ast.Constant) and isinstance(s.value.value, str))]
-        body = [_Subst(sub).visit(s) for s in body]
+            if v not in comp_only:   # a comprehension variable lives in the comprehension's own scope: it needs no renaming (and keeps the generator's text)
+                sub[v] = ast.Name(id=tag + v, ctx=ast.Load())
+        body = [_Subst(sub).visit(copy.deepcopy(s)) for s in _body(g)]
         val = None
         if kind in ("expr", "tail"):
             val = body[-1].value
             body = body[:-1]
+        elif kind == "multi" and make is not None:
+            body = _returns_to_assign(body, make)
+            if body is None:
+                return None, None
         for s in pre + body:
             for n in ast.walk(s):
                 if not hasattr(n, "lineno"):
@@ -130,20 +217,103 @@ def inline_new_helpers(project, ref) -> int:
                     n.col_offset = 0
         return pre + body, val
 
-    def target_of(c: ast.Call, f):
-        try:
-            tg = project.resolve_call(c, f)
-        except Exception:
-            return None
-        if len(tg) != 1 or tg[0].key not in helpers or tg[0] is f:
-            return None
-        return helpers[tg[0].key]
+    def target_of(node, f):
+        """(helper, kind, binding) for a call of / a property read of a new helper, else None"""
+        if isinstance(node, ast.Call):
+            try:
+                tg = project.resolve_call(node, f)
+            except Exception:
+                return None
+            if len(tg) != 1 or tg[0].key not in helpers or tg[0] is f or tg[0].is_property:
+                return None
+            g, kind = helpers[tg[0].key]
+            m = binding(node, g)
+            return (g, kind, m) if m is not None else None
+        if isinstance(node, ast.Attribute) and isinstance(node.ctx, ast.Load) and isinstance(node.value, ast.Name) and f.cls is not None and f.params and node.value.id == f.params[0] \
+                and not f.is_staticmethod and not f.is_classmethod:
+            g = f.cls.lookup(node.attr)
+            if g is None or g.key not in helpers or not g.is_property or g is f:
+                return None
+            kind = helpers[g.key][1]
+            m = binding(None, g, node.value)
+            return (g, kind, m) if m is not None else None
+        return None
 
-    for _round in range(3):   # helpers calling helpers
+    def candidates(expr_root, f):
+        """helper uses inside one expression, outermost first; not inside lambdas / comprehensions / conditionally evaluated parts"""
+        out = []
+
+        def walk(n, cond):
+            if isinstance(n, ast.Lambda):
+                return
+            if isinstance(n, (ast.ListComp, ast.SetComp, ast.DictComp, ast.GeneratorExp)):
+                cond = True   # evaluated once per element: only a pure substitution ('expr' helpers) is possible inside
+            hit = target_of(n, f) if isinstance(n, (ast.Call, ast.Attribute)) else None
+            if hit is not None and (not cond or hit[1] == "expr"):
+                out.append((n, hit, cond))
+            if isinstance(n, ast.IfExp):
+                walk(n.test, cond)
+                walk(n.body, True)
+                walk(n.orelse, True)
+                return
+            if isinstance(n, ast.BoolOp):
+                for k, v in enumerate(n.values):
+                    walk(v, cond or k > 0)
+                return
+            for ch in ast.iter_child_nodes(n):
+                walk(ch, cond)
+        walk(expr_root, False)
+        return out
+
+    def replace(root, old, new):
+        class R(ast.NodeTransformer):
+            def generic_visit(s2, n):
+                for fld, val in ast.iter_fields(n):
+                    if isinstance(val, list):
+                        for k, x in enumerate(val):
+                            if x is old:
+                                val[k] = new
+                            elif isinstance(x, ast.AST):
+                                s2.generic_visit(x)
+                    elif val is old:
+                        setattr(n, fld, new)
+                    elif isinstance(val, ast.AST):
+                        s2.generic_visit(val)
+                return n
+        if root is old:
+            return new
+        R().generic_visit(root)
+        return root
+
+    for _round in range(4):   # helpers calling helpers
         changed = 0
         for f in list(project.all_functions()):
-            if f.key in helpers and _round == 0:
-                pass
+
+            def stmt_level(st, call, hit):
+                """the statements replacing st when `call` (the whole value of st) is inlined; None if not possible"""
+                g, kind, m = hit
+                if isinstance(st, ast.Return):
+                    if kind == "multi":
+                        body, _ = instantiate(g, kind, m, st.lineno, make=None)   # returns stay returns
+                        return body
+                    pre, val = instantiate(g, kind, m, st.lineno)
+                    return pre + [ast.copy_location(ast.Return(value=val if val is not None else ast.Constant(value=None)), st)]
+                if isinstance(st, ast.Assign):
+                    if kind == "multi":
+                        def make(v, at, _st=st):
+                            return [ast.copy_location(ast.Assign(targets=copy.deepcopy(_st.targets), value=v), at)]
+                        body, _ = instantiate(g, kind, m, st.lineno, make=make)
+                        return body
+                    pre, val = instantiate(g, kind, m, st.lineno)
+                    st.value = val if val is not None else ast.Constant(value=None)
+                    return pre + [st]
+                if isinstance(st, ast.Expr):
+                    if kind == "multi":
+                        body, _ = instantiate(g, kind, m, st.lineno, make=lambda v, at: [ast.copy_location(ast.Expr(value=v), at)])
+                        return body
+                    pre, val = instantiate(g, kind, m, st.lineno)
+                    return pre + ([ast.copy_location(ast.Expr(value=val), st)] if val is not None else [])
+                return None
 
             def block(stmts: List[ast.stmt]) -> List[ast.stmt]:
                 nonlocal changed
@@ -156,47 +326,62 @@ def inline_new_helpers(project, ref) -> int:
                     if isinstance(st, ast.Try):
                         for h in st.handlers:
                             h.body = block(h.body)
-                    call = st.value if isinstance(st, (ast.Return, ast.Assign, ast.Expr)) and isinstance(getattr(st, "value", None), ast.Call) else None
-                    hit = target_of(call, f) if call is not None else None
-                    if hit is not None:
-                        g, kind = hit
-                        m = binding(call, g, f)
-                        if m is not None:
-                            pre, val = instantiate(g, kind, m, st.lineno)
-                            out.extend(pre)
-                            if isinstance(st, ast.Expr):
-                                if val is not None:
-                                    out.append(ast.copy_location(ast.Expr(value=val), st))
-                            else:
-                                st.value = val if val is not None else ast.Constant(value=None)
-                                out.append(st)
-                            changed += 1
-                            continue
-                    # single-expression helpers anywhere inside the statement (header expressions only: not inside nested statement lists)
-                    class E(ast.NodeTransformer):
-                        def visit_Call(s2, n):
-                            s2.generic_visit(n)
-                            h2 = target_of(n, f)
-                            if h2 is not None and h2[1] == "expr":
-                                m2 = binding(n, h2[0], f)
-                                if m2 is not None and all(isinstance(a, (ast.Name, ast.Constant, ast.Attribute)) for a in m2.values()):
-                                    nonlocal changed
-                                    changed += 1
-                                    pre, val = instantiate(h2[0], "expr", m2, getattr(n, "lineno", st.lineno))
-                                    if not pre:
-                                        return ast.copy_location(val, n)
-                            return n
-
-                        def visit_FunctionDef(s2, n):
-                            return n
-                        visit_AsyncFunctionDef = visit_Lambda = visit_ClassDef = visit_FunctionDef
-                    if isinstance(st, (ast.Assign, ast.AugAssign, ast.Return, ast.Expr)):
-                        st = E().visit(st)
-                    elif isinstance(st, ast.If):
-                        st.test = E().visit(st.test)
+                    if isinstance(st, (ast.FunctionDef, ast.AsyncFunctionDef, ast.ClassDef)):
+                        out.append(st)
+                        continue
+                    # the header expressions of this statement
+                    if isinstance(st, (ast.Assign, ast.AugAssign, ast.AnnAssign, ast.Return, ast.Expr)):
+                        roots = [("value", st.value)] if getattr(st, "value", None) is not None else []
+                    elif isinstance(st, (ast.If, ast.While)):
+                        roots = [("test", st.test)]
                     elif isinstance(st, ast.For):
-                        st.iter = E().visit(st.iter)
-                    out.append(st)
+                        roots = [("iter", st.iter)]
+                    else:
+                        roots = []
+                    pre_all: List[ast.stmt] = []
+                    replaced_stmt = None
+                    for fld, root in roots:
+                        guard = 0
+                        while guard < 12:
+                            guard += 1
+                            root = getattr(st, fld)
+                            cands = candidates(root, f)
+                            if not cands:
+                                break
+                            node, hit, cond = cands[0]
+                            g, kind, m = hit
+                            simple_args = all(isinstance(a, (ast.Name, ast.Constant)) or (isinstance(a, ast.Attribute) and _pure_chain(a)) for a in m.values())
+                            if kind == "expr" and simple_args:
+                                pre, val = instantiate(g, "expr", m, getattr(node, "lineno", st.lineno))
+                                if not pre:
+                                    setattr(st, fld, replace(root, node, ast.copy_location(val, node)))
+                                    changed += 1
+                                    continue
+                            if node is root and fld == "value" and isinstance(st, (ast.Return, ast.Assign, ast.Expr)) and not isinstance(st, ast.While):
+                                new = stmt_level(st, node, hit)
+                                if new is not None:
+                                    replaced_stmt = new
+                                    changed += 1
+                                break
+                            if cond or isinstance(st, ast.While):
+                                break   # conditionally / repeatedly evaluated: leave as written
+                            # hoist into a temporary right before the statement
+                            counter[0] += 1
+                            tmp = f"_i{counter[0]}_ret"
+                            asg = ast.Assign(targets=[ast.Name(id=tmp, ctx=ast.Store())], value=node, lineno=st.lineno)
+                            new = stmt_level(asg, node, hit)
+                            if new is None:
+                                break
+                            pre_all.extend(new)
+                            setattr(st, fld, replace(root, node, ast.copy_location(ast.Name(id=tmp, ctx=ast.Load()), node)))
+                            changed += 1
+                        if replaced_stmt is not None:
+                            break
+                    out.extend(pre_all)
+                    if replaced_stmt is not None:
+                        out.extend(replaced_stmt)
+                    else:
+                        out.append(st)
                 return out
             f.node.body = block(f.node.body)
         done += changed
@@ -207,6 +392,25 @@ def inline_new_helpers(project, ref) -> int:
             ast.fix_missing_locations(m.tree)
     project.inlined_keys = set(helpers)   # these functions no longer have call sites: rules that look at "who calls / who is never called" skip them
     return done
+
+
+def _comprehension_only_names(f: ast.AST) -> set:
+    """names that are bound in f only as targets of comprehensions"""
+    comp, other = set(), set()
+    for n in ast.walk(f):
+        if isinstance(n, ast.comprehension):
+            comp |= {m.id for m in ast.walk(n.target) if isinstance(m, ast.Name)}
+    comp_target_ids = {id(m) for n in ast.walk(f) if isinstance(n, ast.comprehension) for m in ast.walk(n.target)}
+    for n in ast.walk(f):
+        if isinstance(n, ast.Name) and isinstance(n.ctx, (ast.Store, ast.Del)) and id(n) not in comp_target_ids:
+            other.add(n.id)
+    return comp - other
+
+
+def _pure_chain(e) -> bool:
+    while isinstance(e, ast.Attribute):
+        e = e.value
+    return isinstance(e, ast.Name)
 
 
 def inline_new_closures(project, ref) -> int:
@@ -243,7 +447,7 @@ def inline_new_closures(project, ref) -> int:
                     if k.arg in b or k.arg not in g.params:
                         ok = False
                     b[k.arg] = k.value
-                if set(b) != set(g.params) or not all(isinstance(v, (ast.Name, ast.Constant)) for v in b.values()):
+                if set(b) != set(g.params) or not all(isinstance(v, (ast.Name, ast.Constant)) or (isinstance(v, ast.Attribute) and _pure_chain(v)) or isinstance(v, ast.Subscript) for v in b.values()):
                     ok = False
                 binds[id(c)] = b
             if not ok:
